@@ -99,6 +99,7 @@ def common(ctx):
                 r_dense_into_kron(ctx, f)
     except (OSError, ValueError, KeyError):
         pass
+    pattern_keys = set()
     for q in sorted(ctx.analysed_functions):
         f = ctx.model.functions.get(q)
         if f is not None:
@@ -112,6 +113,9 @@ def common(ctx):
             r_hermitian_solver_operand(ctx, f)
             r_chunk_tail(ctx, f)
             r_oneshot_iterator(ctx, f)
+            # round-6 generic rules: each reports the PRESENCE of a hazardous pattern at a site; when the site goes away (the call moved into a
+            # helper, the loop was rewritten) there is nothing left to decide, so these keys are not part of the confirmed-obligation list
+            _b6 = {o.key for o in ctx.obs}
             r_option_before_return(ctx, f)
             r_guard_not_preempted(ctx, f)
             r_stale_length(ctx, f)
@@ -125,13 +129,14 @@ def common(ctx):
             r_forward_same_named(ctx, f)
             r_einsum_kron(ctx, f)
             r_signed_difference(ctx, f)
+            pattern_keys |= {o.key for o in ctx.obs} - _b6
             if ctx.prop in ("C01", "C02", "C03"):  # properties that quantify over n-partite operators with separate row / column dimensions
                 r_subsystem_count(ctx, f)
 
     # the same hygiene rules over the transitive callee closure of the functions analysed so far (both tiers; a convention break in a
     # helper three calls down changes what the anchored function computes): reported with the shortest call chain.  These obligations
     # exist only as long as the call exists, so they are not part of the confirmed-obligation list (ctx.closure_keys).
-    ctx.closure_keys = set()
+    ctx.closure_keys = set(pattern_keys)
     try:
         from .sweep import _chains
 
@@ -196,7 +201,7 @@ def common(ctx):
                         if not any(p_.key == o.key for p_ in ctx.obs):
                             o.chain = list(o.chain or []) + [f"(obligation of {pid} on a helper this property calls)"]
                             ctx.obs.append(o)
-        ctx.closure_keys = {o.key for o in ctx.obs} - before
+        ctx.closure_keys = ({o.key for o in ctx.obs} - before) | pattern_keys
         ctx.analysed_functions = base
     except (KeyError, AttributeError):
         pass
